@@ -8,6 +8,7 @@ import (
 	"fmt"
 	"os"
 	"path/filepath"
+	"regexp"
 	"sort"
 	"strconv"
 	"strings"
@@ -78,6 +79,12 @@ func (r *Run) Explore(opt Options, body func(*Ctx)) *Stats {
 			}
 		}
 		return &Stats{Space: opt.Space, Exhaustive: true, Violations: map[string]*Violation{}, Counters: map[string]int64{}, outcomes: map[uint64]struct{}{}, nontrivial: map[uint64]struct{}{}}
+	}
+	// development aid: VERIF_ONLY=<regexp> runs only the spaces whose name matches (never used by registered commands)
+	if pat := os.Getenv("VERIF_ONLY"); pat != "" {
+		if ok, _ := regexp.MatchString(pat, opt.Space); !ok {
+			return &Stats{Space: opt.Space, Exhaustive: true, Violations: map[string]*Violation{}, Counters: map[string]int64{}, outcomes: map[uint64]struct{}{}, nontrivial: map[uint64]struct{}{}}
+		}
 	}
 	opt.Deadline = r.Deadline
 	st := Explore(opt, body)
